@@ -273,3 +273,66 @@ func RunEndorseFlags(run *vk.Run) {
 	run.Exhaustive = true
 	run.Rule = "every row of EndorseFlags.tla (image path class x SCRTM version files x technologies x SNP ids x commit length x image presence x SVSM measurement file) executed on the real endorse sub-command; stage reached, error class and the prepared request (technologies, SVN, SVSM measurement, image read) compared; no listed property depends on this engine"
 }
+
+// EndorseRequestPredicates evaluates, for C06, the statements EndorseFlags.tla makes about the request
+// the endorse command prepares (OnlyRequested, SvnFromFile, ShapesAllNamed, the SVSM measurement) on
+// the real command, for every row of the table: what the document will describe is what the command
+// line asked for. Disagreements with the table that these statements do not cover stay DRIFT of the
+// X-EFLAGS engine.
+func EndorseRequestPredicates(run *vk.Run) {
+	em, err := vk.RunTLC(vk.TLCOpts{Module: "EndorseFlags", Config: "Emit_EndorseFlags.cfg", Workers: 1, Timeout: 10 * time.Minute})
+	if err != nil {
+		run.Infra(err)
+		return
+	}
+	run.AddTLC(em)
+	cobra.EnableTraverseRunHooks = false
+	shapeCount := map[string]int{"none": 0, "one": 1, "comma": 2, "repeated": 2, "mixed": 3}
+	parallel(len(em.Cases), func(i int) {
+		var c struct {
+			Row efRow `json:"row"`
+		}
+		if err := json.Unmarshal(em.Cases[i], &c); err != nil {
+			run.Infra(err)
+			return
+		}
+		got, errText, err := runEfRow(c.Row)
+		if err != nil {
+			run.Infra(fmt.Errorf("row %+v: %v", c.Row, err))
+			return
+		}
+		j, _ := json.Marshal(c.Row)
+		run.Case("request:"+string(j), true)
+		_ = errText
+		if got.Stage != "run" {
+			return
+		}
+		r := c.Row
+		if got.Snp != r.AddSnp || got.Tdx != r.AddTdx {
+			run.Violation("request:technologies", fmt.Sprintf("the endorse command prepares a request for sev_snp=%v tdx=%v, the command line asked for sev_snp=%v tdx=%v: %+v", got.Snp, got.Tdx, r.AddSnp, r.AddTdx, r), map[string]any{"row": r})
+		}
+		if r.AddSnp || r.AddTdx {
+			want := -2
+			switch r.Scrtm {
+			case "sibling":
+				want = 7
+			case "suffix":
+				want = 9
+			case "none", "emptyfile":
+				want = 0
+			}
+			if want != -2 && got.Svn != want {
+				run.Violation("request:svn", fmt.Sprintf("the endorse command prepares a request with security version %d; the version file next to the image (%s) says %d: %+v", got.Svn, r.Scrtm, want, r), map[string]any{"row": r})
+			}
+			if r.Scrtm == "both" && got.Svn != 7 && got.Svn != 9 {
+				run.Violation("request:svn", fmt.Sprintf("the endorse command prepares a request with security version %d; the two version files next to the image say 7 and 9: %+v", got.Svn, r), map[string]any{"row": r})
+			}
+		}
+		if r.AddTdx && got.NShapes != shapeCount[r.Shapes] {
+			run.Violation("request:shapes", fmt.Sprintf("the endorse command prepares a request with %d machine shapes, the command line (spelling %q) names %d: %+v", got.NShapes, r.Shapes, shapeCount[r.Shapes], r), map[string]any{"row": r})
+		}
+		if (r.Svsm == "hex48" || r.Svsm == "hex48_ws") && !got.Svsm {
+			run.Violation("request:svsm", fmt.Sprintf("the endorse command was given a 48-byte SVSM measurement file and prepares a request without it: %+v", r), map[string]any{"row": r})
+		}
+	})
+}
